@@ -1658,6 +1658,9 @@ def run(ctx):
     run_r14(ctx, r14)
     r13 = ctx.rule("C03-R13", "binary and gates: writer and reader chain the two deltas the same way and step the running code by 2", floor=5)
     run_r13(ctx, r13)
+    from .c06 import run_r6 as c06_r6
+    r13b = ctx.rule("C03-R13b", "the reader accepts every delta the writer can emit: a delta equal to its reference code (the constant 0 as a gate input) is not rejected (shared with C06-R6)", floor=1)
+    c06_r6(ctx, r13b, inclusive_only=True)
     r12 = ctx.rule("C03-R12", "fields of a struct or variant are written in the order in which they are parsed", floor=4)
     run_r12(ctx, r12)
     r5b = ctx.rule("C03-R5b", "only trailing zero counts are left out of the AIGER header (zero tests decide from the back)", floor=1)
